@@ -67,18 +67,21 @@ func c21Schema(t reflect.Type) ([]c21Field, error) {
 	for i := 0; i < t.NumField(); i++ {
 		f := t.Field(i)
 		if !f.IsExported() {
-			continue
+			return nil, fmt.Errorf("%s has unexported field %s: schema dump does not cover it", t.Name(), f.Name)
 		}
 		tag := f.Tag.Get("json")
-		if tag == "-" {
-			continue
-		}
 		parts := strings.Split(tag, ",")
 		name := parts[0]
 		if name == "" {
 			name = f.Name
 		}
 		cf := c21Field{name: name, tagopts: len(parts) > 1, goKind: f.Type.Kind()}
+		if tag == "-" {
+			// a field hidden from JSON cannot round-trip: reported as an unsupported kind
+			cf.kind = fmt.Sprintf("(KOther %s)", CoqStr("json:\"-\" "+f.Name))
+			out = append(out, cf)
+			continue
+		}
 		switch f.Type.Kind() {
 		case reflect.Uint8, reflect.Uint16, reflect.Uint32, reflect.Uint64:
 			cf.kind = fmt.Sprintf("(KUint %d)", f.Type.Bits())
@@ -171,7 +174,10 @@ func init() {
 		fmt.Fprintf(&b, "Definition max_payload_len : Z := %d.\n", mx)
 		b.WriteString("Definition wire_schemas : list (string * (Z * schema)) := [\n")
 		for i, t := range c21Structs {
-			fs, _ := c21Schema(t)
+			fs, err := c21Schema(t)
+			if err != nil {
+				return "", err
+			}
 			items := []string{}
 			for _, f := range fs {
 				items = append(items, fmt.Sprintf("mk_fspec %s %s %s", CoqStr(f.name), f.kind, CoqBool(f.tagopts)))
@@ -199,10 +205,10 @@ type jnode struct {
 	vals []*jnode
 }
 
-func jNull() *jnode          { return &jnode{kind: "null"} }
-func jNum(l string) *jnode   { return &jnode{kind: "num", s: l} }
-func jStr(s string) *jnode   { return &jnode{kind: "str", s: s} }
-func jBool(b bool) *jnode    { return &jnode{kind: "bool", b: b} }
+func jNull() *jnode           { return &jnode{kind: "null"} }
+func jNum(l string) *jnode    { return &jnode{kind: "num", s: l} }
+func jStr(s string) *jnode    { return &jnode{kind: "str", s: s} }
+func jBool(b bool) *jnode     { return &jnode{kind: "bool", b: b} }
 func jArr(a ...*jnode) *jnode { return &jnode{kind: "arr", arr: a} }
 
 func (n *jnode) coq() string {
@@ -420,6 +426,8 @@ func projectMsg(p reflect.Value) []fvalue {
 				reflect.Copy(reflect.ValueOf(a[:]), f.Elem())
 				out = append(out, fvalue{kind: "id", id: &a})
 			}
+		default:
+			out = append(out, fvalue{kind: "str", s: fmt.Sprint(f.Interface())})
 		}
 	}
 	return out
@@ -657,29 +665,35 @@ func (c21Lightning) PayInvoice(string) (string, error) { return "", errors.New("
 func (c21Lightning) GetPayreq(uint64, string, string, string, swap.InvoiceType, uint64, uint64) (string, error) {
 	return "lnbcrt1fake", nil
 }
-func (c21Lightning) PayInvoiceViaChannel(string, string) (string, error)       { return "", errors.New("fake") }
-func (c21Lightning) AddPaymentCallback(func(string, swap.InvoiceType))         {}
-func (c21Lightning) AddPaymentNotifier(string, string, swap.InvoiceType)       {}
-func (c21Lightning) RebalancePayment(string, string, uint32) (string, error)   { return "", errors.New("fake") }
-func (c21Lightning) RecoverClaimPayment(string) (string, error)                { return "", errors.New("fake") }
-func (c21Lightning) CanSpend(uint64) error                                     { return nil }
-func (c21Lightning) Implementation() string                                    { return "FAKE" }
-func (c21Lightning) SpendableMsat(string) (uint64, error)                      { return 1 << 40, nil }
-func (c21Lightning) ReceivableMsat(string) (uint64, error)                     { return 1 << 40, nil }
-func (c21Lightning) ProbePayment(string, uint64) (bool, string, error)         { return true, "", nil }
+func (c21Lightning) PayInvoiceViaChannel(string, string) (string, error) {
+	return "", errors.New("fake")
+}
+func (c21Lightning) AddPaymentCallback(func(string, swap.InvoiceType))   {}
+func (c21Lightning) AddPaymentNotifier(string, string, swap.InvoiceType) {}
+func (c21Lightning) RebalancePayment(string, string, uint32) (string, error) {
+	return "", errors.New("fake")
+}
+func (c21Lightning) RecoverClaimPayment(string) (string, error)        { return "", errors.New("fake") }
+func (c21Lightning) CanSpend(uint64) error                             { return nil }
+func (c21Lightning) Implementation() string                            { return "FAKE" }
+func (c21Lightning) SpendableMsat(string) (uint64, error)              { return 1 << 40, nil }
+func (c21Lightning) ReceivableMsat(string) (uint64, error)             { return 1 << 40, nil }
+func (c21Lightning) ProbePayment(string, uint64) (bool, string, error) { return true, "", nil }
 
 type c21Chain struct{}
 
 func (c21Chain) AddWaitForConfirmationTx(string, string, uint32, uint32, uint32, []byte) {}
 func (c21Chain) AddWaitForCsvTx(string, string, uint32, uint32, uint32, []byte)          {}
-func (c21Chain) AddConfirmationCallback(func(string, string, error) error)              {}
-func (c21Chain) AddCsvCallback(func(string) error)                                      {}
-func (c21Chain) GetBlockHeight() (uint32, error)                                        { return 1000, nil }
-func (c21Chain) StartWatchingTxs() error                                                { return nil }
-func (c21Chain) TxIdFromHex(string) (string, error)                                     { return "", errors.New("fake") }
-func (c21Chain) ValidateTx(*swap.OpeningParams, string) (bool, error)                   { return false, errors.New("fake") }
-func (c21Chain) GetCSVHeight() uint32                                                   { return 1008 }
-func (c21Chain) SetLabel(string, string, string) error                                  { return nil }
+func (c21Chain) AddConfirmationCallback(func(string, string, error) error)               {}
+func (c21Chain) AddCsvCallback(func(string) error)                                       {}
+func (c21Chain) GetBlockHeight() (uint32, error)                                         { return 1000, nil }
+func (c21Chain) StartWatchingTxs() error                                                 { return nil }
+func (c21Chain) TxIdFromHex(string) (string, error)                                      { return "", errors.New("fake") }
+func (c21Chain) ValidateTx(*swap.OpeningParams, string) (bool, error) {
+	return false, errors.New("fake")
+}
+func (c21Chain) GetCSVHeight() uint32                  { return 1008 }
+func (c21Chain) SetLabel(string, string, string) error { return nil }
 func (c21Chain) CreateOpeningTransaction(*swap.OpeningParams) (string, string, string, uint64, uint32, error) {
 	return "", "", "", 0, 0, errors.New("fake")
 }
@@ -833,13 +847,27 @@ func runC21(args []string) error {
 
 	schemas := [][]c21Field{}
 	for _, t := range c21Structs {
-		s, _ := c21Schema(t)
+		s, err := c21Schema(t)
+		if err != nil {
+			return err
+		}
 		schemas = append(schemas, s)
 	}
 
 	// ---------- family 1: type strings
-	for i := 0; i < *n; i++ {
-		s := genTypeString(r)
+	// boundary table (always): every number around the protocol range, both letter cases, and with zero padding
+	typeTable := []string{}
+	for v := 42069 - 10; v <= 42085+10; v++ {
+		typeTable = append(typeTable, fmt.Sprintf("%x", v), fmt.Sprintf("%X", v), fmt.Sprintf("%08x", v))
+	}
+	typeTable = append(typeTable, c21TypeStrings...)
+	for i := 0; i < *n+len(typeTable); i++ {
+		var s string
+		if i < len(typeTable) {
+			s = typeTable[i]
+		} else {
+			s = genTypeString(r)
+		}
 		obs, kind := coqTypeResult(s)
 		cf.Add(fmt.Sprintf("CType %s %s", CoqStr(s), obs), "type|"+s, kind != "parse-error" || s != "", "type:"+kind,
 			map[string]interface{}{"fn": "PeerswapCustomMessageType", "type_string": s, "result": kind})
@@ -923,7 +951,7 @@ func runC21(args []string) error {
 	if err != nil {
 		return err
 	}
-	defer svc.db.Close()
+	defer func() { svc.db.Close() }()
 	maxLen, err := probeMaxPayload()
 	if err != nil {
 		return err
@@ -953,6 +981,14 @@ func runC21(args []string) error {
 			copy(pl, []byte("{"))
 			fixed = append(fixed, fixedCase{th, "size", pl})
 		}
+	}
+	// a perfectly valid new swap-out request / cancel of the live swap, padded with JSON whitespace to the
+	// size limit and one byte beyond it: only the size decides
+	for _, d := range []int{0, 1, 1000} {
+		req := strings.Replace(liveReq, liveID, strings.Repeat(fmt.Sprintf("%02x", 0x70+d%16), 32), 1)
+		pl := bytes.Repeat([]byte(" "), maxLen+d)
+		copy(pl, []byte(req))
+		fixed = append(fixed, fixedCase{messages.MessageTypeToHexString(messages.MESSAGETYPE_SWAPOUTREQUEST), "size", pl})
 	}
 	for i := 0; i < *n+len(fixed); i++ {
 		var ty string
@@ -1028,6 +1064,13 @@ func runC21(args []string) error {
 			}
 		}
 		peer := PickS(r, []string{peerA, "03" + strings.Repeat("bb", 32), ""})
+		if i > 0 && i%250 == 0 {
+			svc.db.Close()
+			if svc, err = newC21Service(*out); err != nil {
+				return err
+			}
+			svc.receive(peerA, messages.MessageTypeToHexString(messages.MESSAGETYPE_SWAPOUTREQUEST), []byte(liveReq))
+		}
 		o := svc.receive(peer, ty, payload)
 		treeTerm := "None"
 		if wellformed {
@@ -1050,7 +1093,7 @@ func runC21(args []string) error {
 			map[string]interface{}{"fn": "OnMessageReceived", "type_string": ty, "payload": shown, "payload_len": len(payload), "peer": peer,
 				"panic": o.panicked, "err": o.err, "state_changed": o.changed, "messages_sent": o.sends, "kind": kind})
 	}
-	return cf.Write(*out, 100, map[string]interface{}{"seed": *seed})
+	return cf.Write(*out, 200, map[string]interface{}{"seed": *seed})
 }
 
 func PickNode(r *Rng) *jnode {
